@@ -228,6 +228,12 @@ def termination_rule(prog, chk, pid, an: ExcAnalysis):
             # feeder loop: consumes can_consume > 0 bytes of a finite buffer per iteration or breaks
             brk = [e for e in body if e.kind == "guard" and e.d.get("term") in ("break", "return")]  # leaving the loop or the function when nothing can be consumed
             shrink = any(nm == "self._buffer" for nm in lr.next)
+            if not shrink:
+                # the buffer may be walked through a local (view) that is re-bound to its own tail: x = x[k:]
+                for nm, nx in lr.next.items():
+                    nx_ = unsnap(nx)
+                    if nx_.op == "slice" and unsnap(nx_.args[0]).op == "loopvar" and unsnap(nx_.args[0]).args[1] == nm and nx_.args[2] is NONE and nx_.args[3] is NONE:
+                        shrink = True
             ok = bool(brk) and shrink
             why = "buffer loop does not shrink its buffer or break when nothing can be consumed"
         elif rd_exact or any(e.kind == "mcall" and e.d["name"] == "read" and e.d.get("ext_base") for e in body):
@@ -295,7 +301,7 @@ def termination_rule(prog, chk, pid, an: ExcAnalysis):
                     "every iteration consumes input from a finite source (length-checked read of >= 1 byte, readline with an end-of-input raise, shrinking buffer) so the loop ends or raises", why)
 
 
-def _reads_before(stmts, idx, rdr_name, fold):
+def _reads_before(stmts, idx, rdr_name, fold, rep=lambda n: n):
     """bytes certainly consumed from reader `rdr_name` by the straight-line statements stmts[:idx] after its creation (reads in branches / loops are not counted)"""
     total = 0
     for st in stmts[:idx]:
@@ -306,7 +312,7 @@ def _reads_before(stmts, idx, rdr_name, fold):
             tops = [st.test]
         for top in tops:
             for c in ast.walk(top):
-                if (isinstance(c, ast.Call) and isinstance(c.func, ast.Attribute) and c.func.attr in ("read", "read_int") and isinstance(c.func.value, ast.Name) and c.func.value.id == rdr_name
+                if (isinstance(c, ast.Call) and isinstance(c.func, ast.Attribute) and c.func.attr in ("read", "read_int") and isinstance(c.func.value, ast.Name) and rep(c.func.value.id) == rep(rdr_name)
                         and len(c.args) == 1):
                     try:
                         k = fold(c.args[0])
@@ -346,6 +352,47 @@ def _pinned_home(prog, lib, fi) -> str:
     return fi.qualname if fi is not None else "?"
 
 
+def _mac_input_trace_proof(prog, lib, fi, call_node) -> bool:
+    from bfsa.guard import dominates
+    from bfsa.layout import RField, extract_readers
+
+    home_q = _pinned_home(prog, lib, fi)
+    home = lib.get(home_q)
+    if home is None:
+        return False
+    try:
+        ex = Exec(prog, policy=lambda e, f, d: f.cls is not None and f.cls.name == "BytesReader" and d < 6)
+        res = ex.run(home)
+    except Exception:
+        return False
+    calls = [e for e in res.events if e.kind == "call" and e.d["callee"].name == "cmac" and getattr(e.node, "lineno", None) == call_node.lineno and e.fn is not None and e.fn.file == fi.file]
+    if not calls:
+        return False
+    rds = extract_readers(ex, res.events)
+    for ce in calls:
+        a = [x for x in ce.d["args"]]
+        if not a:
+            return False
+        d = unsnap(a[0])
+        if not (d.op == "slice" and d.args[1] is NONE and is_const(d.args[2]) and isinstance(cval(d.args[2]), int) and cval(d.args[2]) < 0 and d.args[3] is NONE):
+            return False
+        k = -cval(d.args[2])
+        src = unsnap(d.args[0])
+        good = False
+        for r in rds.values():
+            if r.raw is None or unsnap(r.raw) is not src:
+                continue
+            total = 0
+            for f in r.flat:
+                if isinstance(f, RField) and is_const(f.size) and isinstance(cval(f.size), int) and cval(f.size) > 0 and f.ev.uid < ce.uid and dominates(f.ev, ce):
+                    total += cval(f.size)
+            if total > k:
+                good = True
+        if not good:
+            return False
+    return True
+
+
 def mac_input_rule(prog, chk, pid, an: ExcAnalysis):
     """the registered cipher's mac() cannot take an empty input (the plug-in's feeder raises a bare Exception): every cmac() call a parser reaches must be handed data that is provably
     non-empty.  Accepted proof: the data is X[:-K] and the call is preceded, in the same straight-line block, by exact reads of more than K bytes from BytesReader(X)."""
@@ -368,9 +415,76 @@ def mac_input_rule(prog, chk, pid, an: ExcAnalysis):
                 todo.extend(by_name.get(nm, []))
                 if nm and nm[:1].isupper():
                     todo.extend(x for x in by_name.get("__init__", []) if x.endswith("." + nm + ".__init__"))
+    from bfsa.fuse import fuse_function
+    from bfsa.symexec import _is_new_function as _new_fn
+
+    # helpers that did not exist on the pinned tree and hand one of their parameters straight to cmac(): their call sites are the MAC sites
+    # (name -> index of the data argument at a call site, `self` not counted)
+    wrappers: Dict[str, int] = {}
+    for q_, f_ in lib.items():
+        if not _new_fn(f_) or not isinstance(f_.node, (ast.FunctionDef, ast.AsyncFunctionDef)):
+            continue
+        ps = [a_.arg for a_ in f_.node.args.posonlyargs + f_.node.args.args]
+        for c_ in ast.walk(f_.node):
+            if isinstance(c_, ast.Call) and isinstance(c_.func, ast.Name) and c_.func.id == "cmac" and c_.args and isinstance(c_.args[0], ast.Name) and c_.args[0].id in ps:
+                stores = [n_ for n_ in ast.walk(f_.node) if isinstance(n_, ast.Name) and n_.id == c_.args[0].id and isinstance(n_.ctx, ast.Store)]
+                if not stores:
+                    idx_ = ps.index(c_.args[0].id) - (1 if f_.cls is not None and f_.kind in ("function", "classmethod") else 0)
+                    if idx_ >= 0:
+                        wrappers[f_.name] = idx_
+
+    def gen_of(func_expr, _lib=lib):
+        nm_ = func_expr.id if isinstance(func_expr, ast.Name) else None
+        for q_ in by_name.get(nm_, []) if nm_ else []:
+            f_ = _lib[q_]
+            if f_.is_generator and f_.cls is None and f_.parent is None and _new_fn(f_):
+                return f_.node
+        return None
+
     for q in sorted(reach):
         fi = lib[q]
+        if fi.name in wrappers and _new_fn(fi):
+            continue  # its data comes from its callers: decided there
         fold = lambda e, _fi=fi: prog.fold(_fi.module, e, _fi.cls)
+        # a generator that did not exist on the pinned tree is read together with the loop that consumes it
+        fnode = fuse_function(fi.node, gen_of) if isinstance(fi.node, (ast.FunctionDef, ast.AsyncFunctionDef)) else fi.node
+        # (the one-trip loop the fusion wraps the consumer's body in only serves `continue`: for "what was certainly read before this call" its body is straight-line code)
+        def splice_once(stmts_):
+            i_ = 0
+            while i_ < len(stmts_):
+                st_ = stmts_[i_]
+                if isinstance(st_, ast.For) and isinstance(st_.target, ast.Name) and st_.target.id.startswith("__g") and st_.target.id.endswith("_once"):
+                    stmts_[i_:i_ + 1] = st_.body
+                    continue
+                for fld_ in ("body", "orelse", "finalbody"):
+                    b_ = getattr(st_, fld_, None)
+                    if isinstance(b_, list) and b_ and isinstance(b_[0], ast.stmt) and not isinstance(st_, (ast.FunctionDef, ast.AsyncFunctionDef, ast.ClassDef)):
+                        splice_once(b_)
+                for h_ in getattr(st_, "handlers", []) or []:
+                    splice_once(h_.body)
+                i_ += 1
+
+        if fnode is not fi.node:
+            splice_once(fnode.body)
+        # names that are plain copies of one another (`a = b`, `a, b = x, y`): one object under several names
+        alias: Dict[str, str] = {}
+
+        def rep(nm_):
+            while alias.get(nm_, nm_) != nm_:
+                nm_ = alias[nm_]
+            return nm_
+
+        for a_ in ast.walk(fnode):
+            if isinstance(a_, ast.Assign) and len(a_.targets) == 1:
+                t_, v_ = a_.targets[0], a_.value
+                pairs_ = []
+                if isinstance(t_, ast.Name) and isinstance(v_, ast.Name):
+                    pairs_ = [(t_.id, v_.id)]
+                elif isinstance(t_, (ast.Tuple, ast.List)) and isinstance(v_, (ast.Tuple, ast.List)) and len(t_.elts) == len(v_.elts):
+                    pairs_ = [(x_.id, y_.id) for x_, y_ in zip(t_.elts, v_.elts) if isinstance(x_, ast.Name) and isinstance(y_, ast.Name)]
+                for x_, y_ in pairs_:
+                    if rep(x_) != rep(y_):
+                        alias[rep(x_)] = rep(y_)
 
         def blocks(node):
             for fld in ("body", "orelse", "finalbody"):
@@ -385,7 +499,7 @@ def mac_input_rule(prog, chk, pid, an: ExcAnalysis):
 
         # local names that stand for cmac: `m = cmac` or `m = partial(cmac, key=...)` (no positional argument bound, so the data is still the first argument)
         mac_names = {"cmac"}
-        for a in ast.walk(fi.node):
+        for a in ast.walk(fnode):
             if isinstance(a, ast.Assign) and len(a.targets) == 1 and isinstance(a.targets[0], ast.Name):
                 v = a.value
                 if isinstance(v, ast.Name) and v.id == "cmac":
@@ -393,20 +507,23 @@ def mac_input_rule(prog, chk, pid, an: ExcAnalysis):
                 elif (isinstance(v, ast.Call) and (getattr(v.func, "id", None) == "partial" or getattr(v.func, "attr", None) == "partial") and len(v.args) == 1
                       and isinstance(v.args[0], ast.Name) and v.args[0].id == "cmac"):
                     mac_names.add(a.targets[0].id)
-        for blk in blocks(fi.node):
+        for blk in blocks(fnode):
             for i, st in enumerate(blk):
                 own = [st.test] if isinstance(st, (ast.If, ast.While)) else [st.iter] if isinstance(st, ast.For) else [st] if not hasattr(st, "body") else []
                 for top in own:
                     for c in ast.walk(top):
-                        if not (isinstance(c, ast.Call) and isinstance(c.func, ast.Name) and c.func.id in mac_names and c.args):
+                        is_mac = isinstance(c, ast.Call) and isinstance(c.func, ast.Name) and c.func.id in mac_names and c.args
+                        wname = (c.func.attr if isinstance(c.func, ast.Attribute) else getattr(c.func, "id", None)) if isinstance(c, ast.Call) else None
+                        is_wrapped = (not is_mac) and wname in wrappers and len(c.args) > wrappers[wname]
+                        if not (is_mac or is_wrapped):
                             continue
                         n_sites += 1
-                        data = c.args[0]
+                        data = c.args[0] if is_mac else c.args[wrappers[wname]]
                         shown = ast.unparse(data)
                         if isinstance(data, ast.Name):
                             # a local bound exactly once in this function stands for its defining expression
-                            defs = [a for a in ast.walk(fi.node) if isinstance(a, ast.Assign) and any(isinstance(t, ast.Name) and t.id == data.id for t in a.targets)]
-                            others = [a for a in ast.walk(fi.node) if isinstance(a, (ast.AugAssign, ast.AnnAssign, ast.For, ast.NamedExpr, ast.withitem)) and any(isinstance(x, ast.Name) and x.id == data.id and isinstance(x.ctx, ast.Store) for x in ast.walk(a.target if hasattr(a, "target") else a))]
+                            defs = [a for a in ast.walk(fnode) if isinstance(a, ast.Assign) and any(isinstance(t, ast.Name) and t.id == data.id for t in a.targets)]
+                            others = [a for a in ast.walk(fnode) if isinstance(a, (ast.AugAssign, ast.AnnAssign, ast.For, ast.NamedExpr, ast.withitem)) and any(isinstance(x, ast.Name) and x.id == data.id and isinstance(x.ctx, ast.Store) for x in ast.walk(a.target if hasattr(a, "target") else a))]
                             if len(defs) == 1 and not others and len(defs[0].targets) == 1 and data.id not in fi.params:
                                 data = defs[0].value
                                 shown = "%s = %s" % (shown, ast.unparse(data))
@@ -419,18 +536,25 @@ def mac_input_rule(prog, chk, pid, an: ExcAnalysis):
                             if isinstance(k, int) and k < 0:
                                 # the enclosing statement lists, innermost first: look for `R = BytesReader(X, ...)` followed by reads of more than K bytes, all before the call
                                 got = 0
-                                for blk2 in blocks(fi.node):
+                                for blk2 in blocks(fnode):
                                     idx2 = next((j for j, s2 in enumerate(blk2) if any(x is c for x in ast.walk(s2))), None)
                                     if idx2 is None:
                                         continue
                                     for j in range(idx2):
                                         s2 = blk2[j]
                                         if (isinstance(s2, ast.Assign) and len(s2.targets) == 1 and isinstance(s2.targets[0], ast.Name) and isinstance(s2.value, ast.Call)
-                                                and getattr(s2.value.func, "id", None) == "BytesReader" and s2.value.args and isinstance(s2.value.args[0], ast.Name) and s2.value.args[0].id == data.value.id):
-                                            got = max(got, _reads_before(blk2[j + 1:idx2], idx2 - j - 1, s2.targets[0].id, fold))
+                                                and getattr(s2.value.func, "id", None) == "BytesReader" and s2.value.args and isinstance(s2.value.args[0], ast.Name) and rep(s2.value.args[0].id) == rep(data.value.id)):
+                                            got = max(got, _reads_before(blk2[j + 1:idx2], idx2 - j - 1, s2.targets[0].id, fold, rep))
                                 ok = got > -k
                                 why = "only %d byte(s) are certainly read from %s before its MAC is computed over %s: for shorter input the MAC input is empty and the cipher raises a bare Exception" % (got, data.value.id, ast.unparse(data))
-                        (chk.ok if ok else chk.fail)(P("mac-input-nonempty"), _pinned_home(prog, lib, fi), "cmac(%s, ...)" % ast.unparse(c.args[0]), "%s:%d" % (fi.file, c.lineno),
+                        if not ok:
+                            # the same argument on the interpreted trace of the pinned home function (helpers and helper classes that did not exist on the pinned tree
+                            # are interpreted as part of it): the data is X[:-K], X is what a reader object R was built over, and exact reads of more than K bytes
+                            # from R come before the call on every path to it
+                            proof = _mac_input_trace_proof(prog, lib, fi, c)
+                            if proof:
+                                ok, why = True, ""
+                        (chk.ok if ok else chk.fail)(P("mac-input-nonempty"), _pinned_home(prog, lib, fi), "cmac(%s, ...)" % ast.unparse(c.args[0] if is_mac else c.args[wrappers[wname]]), "%s:%d" % (fi.file, c.lineno),
                                                      "the MAC input is X[:-K] after more than K bytes of X were read: it cannot be empty" if ok else why)
     if n_sites < 2:
         raise AnalysisError("expected at least the two cmac() call sites of the BF3 reader, found %d" % n_sites)
